@@ -64,12 +64,18 @@ pub fn conn_log() -> Arc<ConnLog> {
             l2.events.fetch_add(1, Ordering::Relaxed);
             if point == "conn.frame" {
                 // carries no port: attributed through the thread-local of the emitting task's last decode
-                LAST_PORT.with(|p| {
-                    let port = p.get();
+                let port = LAST_PORT.with(|p| p.get());
+                {
                     let mut m = l2.m.lock().unwrap();
                     let e = m.entry(port).or_default();
                     e.frames.push((a as u8, b));
-                });
+                }
+                l2.cv.notify_all();
+                // injected delay: the connection task sleeps when it has just been handed a given frame
+                let d = DELAYS.lock().unwrap().iter().find(|(k, o, _)| *k == port && *o == a as u8).map(|x| x.2);
+                if let Some(ms) = d {
+                    std::thread::sleep(Duration::from_millis(ms));
+                }
                 return;
             }
             let mut m = l2.m.lock().unwrap();
@@ -117,6 +123,17 @@ pub fn conn_log() -> Arc<ConnLog> {
         l
     })
     .clone()
+}
+
+/// (connection key, opcode, milliseconds): see `conn.frame` above
+static DELAYS: Mutex<Vec<(u32, u8, u64)>> = Mutex::new(Vec::new());
+
+pub fn inject_delay(key: u32, opcode: u8, ms: u64) {
+    DELAYS.lock().unwrap().push((key, opcode, ms));
+}
+
+pub fn clear_delays(key: u32) {
+    DELAYS.lock().unwrap().retain(|d| d.0 != key);
 }
 
 thread_local! {
